@@ -48,6 +48,9 @@ type Sim struct {
 	MaxSteps int
 	// Delays are the "advance the clock instead" options offered when operations are parked.
 	Delays []time.Duration
+	// StepLatency is simulated time the scheduler lets pass before each release, so that no two
+	// released operations share a timestamp (0 = none).
+	StepLatency time.Duration
 	// IdleLimit is how much simulated time may pass with nothing parked before the run is
 	// declared stuck.
 	IdleLimit time.Duration
@@ -310,8 +313,16 @@ func (s *Sim) Loop() {
 			continue
 		}
 		id := ids[choice]
+		if s.StepLatency > 0 {
+			time.Sleep(s.StepLatency)
+			synctest.Wait()
+		}
 		s.mu.Lock()
 		p := s.parked[id]
+		if p == nil { // its context ended while the clock advanced
+			s.mu.Unlock()
+			continue
+		}
 		delete(s.parked, id)
 		s.mu.Unlock()
 		if len(ids) > 1 {
